@@ -1,4 +1,5 @@
 import ClusterVerif.Lemmas.C05
+import ClusterVerif.Lemmas.C05R
 import ClusterVerif.Model.C05Source
 import ClusterVerif.Gen.C05
 
@@ -254,6 +255,342 @@ example :
     statusOf (track k06Cfg s { cid := 2, kind := .here, mode := .direct, tag := 1 }).1 2 = .pinError := by
   decide
 
+/-! ### round 7: recover from the status listing (`Model/C05R.lean`)
+
+`RecoverAll` = `StatusAll(ctx, TrackerStatusUndefined)`, then `recoverWithPinInfo` for every entry with the status READ AT
+LISTING TIME (`raLoop`: worker / daemon activity `pre` goes on between the entries), `Recover(c)` = the table entry, else
+`Status(c)`, then the same switch. `recAction` is that switch as a function of the status; the theorems quantify over the
+status the listing produces, not over sampled states. `ls = false`: the daemon's reads (`PinLsCid` / `PinLs`) fail. -/
+
+/-- the switch, enumerated over all thirteen statuses: exactly pin_error and unexpectedly_unpinned re-pin, exactly unpin_error
+    re-unpins, everything else (cluster_error included) is left -/
+theorem recover_switch_table :
+    (∀ st, recAction st = some .pin ↔ (st = .pinError ∨ st = .unexpectedlyUnpinned)) ∧
+    (∀ st, recAction st = some .unpin ↔ st = .unpinError) ∧ (∀ st, recAction st ≠ some .remote) := by
+  refine ⟨?_, ?_, ?_⟩ <;> intro st <;> cases st <;> simp [recAction]
+
+/-- with the daemon answering, the refined `Recover(c)` is the `recover c` step of the base model -/
+theorem recoverR_refines (cfg : Cfg) (s : State) (c : Nat) : recoverR cfg s true c = recover cfg s c := recoverR_true cfg s c
+
+/-- The refined `RecoverAll` (listing snapshot, loop with worker / daemon activity in between) preserves the invariant. -/
+theorem recoverAllR_invariant (cfg : Cfg) (s : State) (ls : Bool) (items : List (List Ev × Nat)) (hr : Reachable cfg s)
+    (hint : ∀ it ∈ items, ∀ e ∈ it.1, internalOnly e = true) : Inv (recoverAllR cfg s ls items).1 :=
+  inv_raLoop cfg _ items s (inv_reachable hr) (fun _ _ hl => listingR_sound (inv_reachable hr) hl) hint
+
+/-- A cid that is in trouble is listed with a status that calls for the right repair: no live operation (none, or an
+    errored one) and the daemon does not match ⇒ the listing has an entry whose switch re-issues the operation the pinset
+    calls for. -/
+theorem mismatch_is_listed (cfg : Cfg) (s : State) (c : Nat) (hr : Reachable cfg s) (hsl : StartLike s c)
+    (hm : daemonMatches (observe s) c = false) :
+    ∃ st t, listingR s true c = some st ∧ recAction st = some t ∧ wantTyp (s.shared c) t := by
+  have h := inv_reachable hr
+  by_cases hna : ∀ st, statusAllOf s c = some st → recAction st = none
+  · exfalso
+    have hh := healed_of_noaction h hsl hna
+    rcases hsl with hcur | ⟨i, hcur, hp⟩
+    · have hidle := h.idle c hcur
+      unfold idleOk at hidle
+      unfold daemonMatches daemonMode observe at hm
+      simp only [] at hm
+      cases hsh : s.shared c with
+      | none => rw [hsh] at hidle hm; simp [hidle] at hm
+      | some p =>
+        rw [hsh] at hidle hm; simp only [] at hidle hm
+        cases hk : p.kind with
+        | sharded => simp [hk] at hm
+        | remote =>
+          rcases hidle hk with hd | hf
+          · simp [hk, hd] at hm
+          · simp [hk, hf] at hm
+        | here => obtain ⟨t, ht⟩ := hh.idle hcur p hsh hk; simp [hk, ht] at hm
+    · have ht : (s.ops i).typ = .remote := by
+        rcases hh.noErr i hcur with ht | hne
+        · exact ht
+        · exact absurd hp hne
+      have hw := h.curTyp c i hcur
+      have hf := h.remoteErr c i hcur ht hp
+      rw [ht] at hw
+      unfold wantTyp at hw
+      unfold daemonMatches daemonMode observe at hm
+      simp only [] at hm
+      cases hsh : s.shared c with
+      | none => rw [hsh] at hw; cases hw
+      | some p =>
+        rw [hsh] at hw hm; simp only [] at hw hm
+        cases hk : p.kind with
+        | sharded => simp [hk] at hm
+        | remote => simp [hk, hf] at hm
+        | here => rw [hk] at hw; cases hw
+  · simp only [not_forall] at hna
+    obtain ⟨st, hst, hne⟩ := hna
+    cases ha : recAction st with
+    | none => exact absurd ha hne
+    | some t => exact ⟨st, t, hst, ha, statusAllOf_sound h hst t ha⟩
+
+/-- `RecoverAll` covers the listing: every listed cid whose status calls for a repair — for EVERY status the listing can
+    produce, by `recAction` — gets a new operation (a fresh id `j`) for that cid, of the right type, a re-pin carrying the
+    pin recorded in the shared pinset; whatever the workers and the daemon do between the entries, in whatever order the
+    entries are visited, as long as no entry is refused with ErrFullQueue. -/
+theorem recoverAll_covers (cfg : Cfg) (s : State) (items : List (List Ev × Nat)) (hr : Reachable cfg s)
+    (hint : ∀ it ∈ items, ∀ e ∈ it.1, internalOnly e = true) (hnd : (items.map (·.2)).Nodup)
+    (c : Nat) (hc : c ∈ items.map (·.2)) (st : Status) (t : OpType) (hst : listingR s true c = some st)
+    (hact : recAction st = some t) (hnil : (recoverAllR cfg s true items).2 = .nil) :
+    ∃ j, s.nextId ≤ j ∧ j < (recoverAllR cfg s true items).1.nextId ∧ ((recoverAllR cfg s true items).1.ops j).cid = c ∧
+      ((recoverAllR cfg s true items).1.ops j).typ = t ∧
+      (t = .pin → s.shared c = some ((recoverAllR cfg s true items).1.ops j).pin) :=
+  raLoop_covers cfg _ c st t hst hact items s (inv_reachable hr) (fun _ _ hl => listingR_sound (inv_reachable hr) hl)
+    hint hnd hc (startLike_of_action hst hact) hnil
+
+/-- ... and leaves the healthy ones alone: a cid without a table entry whose daemon state matches has a status (read with
+    or without the daemon answering) for which the switch does nothing, so neither `Recover(c)` nor its entry in the loop
+    of `RecoverAll` — executed in whatever later state `s1` — creates an operation. -/
+theorem recover_skips_healthy (cfg : Cfg) (s : State) (ls : Bool) (c : Nat) (hcur : s.cur c = none)
+    (hm : daemonMatches (observe s) c = true) :
+    recoverR cfg s ls c = (s, .nil) ∧ ∀ st, listingR s ls c = some st → ∀ s1, recoverWith cfg s1 c st = (s1, .nil) := by
+  obtain ⟨h1, h2⟩ := noaction_of_healthy hcur hm ls
+  refine ⟨?_, fun st hl s1 => ?_⟩
+  · unfold recoverR; rw [recoverWith_eq, h1]
+  · rw [recoverWith_eq, h2 st hl]
+
+/-- `recover_heals` over the refined step: from a reachable quiescent state, `RecoverAll` as the code runs it (listing with
+    the daemon answering, entries visited in any order `items` that contains every listed cid, worker steps and successful
+    daemon calls in between, no ErrFullQueue), then any healthy activity `es` up to a quiescent state: the daemon matches
+    for every cid. -/
+theorem recoverAllR_heals (cfg : Cfg) (n : Nat) (s s' : State) (items : List (List Ev × Nat)) (es : List Ev)
+    (hr : Reachable cfg s) (hq : quiescent n (observe s) = true)
+    (hint : ∀ it ∈ items, ∀ e ∈ it.1, healthyInternal e = true)
+    (hall : ∀ c, c < n → (listingR s true c).isSome → c ∈ items.map (·.2))
+    (hnil : (recoverAllR cfg s true items).2 = .nil)
+    (hes : ∀ e ∈ es, healthyEv e = true) (hrun : runOk cfg (recoverAllR cfg s true items).1 es = some s')
+    (hq' : quiescent n (observe s') = true) : ∀ c, c < n → daemonMatches (observe s') c = true := by
+  have hi := inv_reachable hr
+  obtain ⟨g1, g2⟩ := raLoop_heals cfg n (listingR s true) items s hi (fun _ _ hl => listingR_sound hi hl) hint
+    (fun c hc => by
+      have hsl := startLike_of_quiescent hi hq c hc
+      by_cases hna : ∀ st, statusAllOf s c = some st → recAction st = none
+      · exact Or.inl (healed_of_noaction hi hsl hna)
+      · simp only [not_forall] at hna
+        obtain ⟨st, hst, hne⟩ := hna
+        cases ha : recAction st with
+        | none => exact absurd ha hne
+        | some t => exact Or.inr ⟨hsl, hall c hc (by rw [listingR_true, hst]; rfl), st, t, hst, ha⟩) hnil
+  obtain ⟨k1, _, k3⟩ := heal_run cfg n es _ s' g1 (fun c hc => Or.inl (g2 c hc)) hes hrun
+  exact fun c hc => matches_of_healed_quiescent k1 hq' c hc (k3 c hc (Or.inl (g2 c hc)))
+
+/-- `lsErr`, single cid: when `PinLsCid` fails, `Status` of a pin allocated here that has no table entry is cluster_error —
+    an error status — and `Recover(c)` leaves it alone (returns nil, creates nothing); a cid WITH a table entry is recovered
+    as usual (`GetExists` needs no daemon read). -/
+theorem recover_lsErr (cfg : Cfg) (s : State) (c : Nat) :
+    (∀ p, s.cur c = none → s.shared c = some p → p.kind = .here →
+      statusR s false c = .clusterError ∧ isError (statusR s false c) = true ∧ recoverR cfg s false c = (s, .nil)) ∧
+    (∀ i, s.cur c = some i → recoverR cfg s false c = recover cfg s c) := by
+  refine ⟨fun p hcur hsh hk => ?_, fun i hcur => ?_⟩
+  · have h1 : statusR s false c = .clusterError := by unfold statusR; rw [hcur, hsh]; simp [hk]
+    refine ⟨h1, by rw [h1]; rfl, ?_⟩
+    unfold recoverR; rw [h1]; rfl
+  · unfold recoverR recover statusR statusOf; rw [hcur]
+
+/-- `lsErr`, `RecoverAll`: when `PinLs` fails the listing is empty (`StatusAll` returns nil) — not even the errored
+    operations of the table are listed — so nothing is recovered: the state after it is the one the workers and the daemon
+    produce on their own. (The unchanged code returned nil here; see notes/C05.md, `fixed:`.) -/
+theorem recoverAll_lsErr (cfg : Cfg) (s : State) (items : List (List Ev × Nat)) :
+    recoverAllR cfg s false items = (items.foldl (fun s it => run cfg s it.1) s, .nil) := by
+  unfold recoverAllR
+  have : listingR s false = fun _ => none := by funext c; rfl
+  rw [this]; exact raLoop_unlisted cfg items s
+
+/-- ... and a later round with the daemon answering heals: a failed round only lets workers and daemon run, so it ends in a
+    reachable state, and from its next quiescent point `recoverAllR_heals` applies. -/
+theorem lsErr_round_reachable (cfg : Cfg) (s : State) (items : List (List Ev × Nat)) (hr : Reachable cfg s) :
+    Reachable cfg (recoverAllR cfg s false items).1 := by
+  rw [recoverAll_lsErr]
+  simp only []
+  induction items generalizing s with
+  | nil => exact hr
+  | cons it rest ih =>
+    simp only [List.foldl_cons]
+    apply ih
+    generalize it.1 = es
+    induction es generalizing s with
+    | nil => exact hr
+    | cons e es ih2 => exact ih2 (step cfg s e) (.step e hr)
+
+/-- a concrete lsErr round and its repair: cid 0 errored (daemon failed the pin), `RecoverAll` with `PinLs` failing does
+    nothing, `RecoverAll` with the daemon answering re-queues the recorded pin and the daemon ends matching -/
+example :
+    let s0 := run k06Cfg init [.track (k06Pin .direct), .deqPin, .retErr 0]
+    statusOf s0 0 = .pinError ∧ (recoverAllR k06Cfg s0 false [([], 0)]).1.nextId = s0.nextId ∧
+    (let s1 := run k06Cfg (recoverAllR k06Cfg s0 true [([], 0)]).1 [.deqPin, .effect 1, .retOk 1]
+     quiescent 1 (observe s1) = true ∧ daemonMatches (observe s1) 0 = true) := by
+  decide
+
+/-! ### round 7: whole schedules (`EvR`, `obsTrace` of `Model/C05R.lean`)
+
+A schedule is a list of blocks of events — instructions, worker steps, daemon effects / answers / faults, lost pins, the
+refined `Recover` / `RecoverAll`, the daemon's read fault going on and off, `stabilize` — and an observation is taken after
+every block, as the driver does after every scripted action. -/
+
+/-- the Prop reading of the first clause as the driver evaluates it -/
+theorem clause_match_or_error_iff (n : Nat) (os : List Obs) :
+    os.all (fun o => !quiescent n o || (List.range n).all (matchOrError o)) = true ↔
+      ∀ o ∈ os, quiescent n o = true → ∀ c, c < n → matchOrError o c = true := by
+  simp only [List.all_eq_true, Bool.or_eq_true, Bool.not_eq_eq_eq_not, Bool.not_true, List.mem_range]
+  constructor
+  · intro h o ho hq c hc
+    rcases h o ho with h1 | h1
+    · rw [hq] at h1; cases h1
+    · exact h1 c hc
+  · intro h o ho
+    cases hq : quiescent n o
+    · exact Or.inl rfl
+    · exact Or.inr (fun c hc => h o ho hq c hc)
+
+/-- `holds` is the conjunction of its four named clauses -/
+theorem holds_iff (n : Nat) (o0 : Obs) (fs : List Frame) :
+    holds n o0 fs = true ↔
+      ((o0 :: fs.map (·.obs)).all (fun o => !quiescent n o || (List.range n).all (matchOrError o)) = true ∧
+       healsFrom n o0 fs = true ∧ allFrames usesRecorded o0 fs = true ∧ fs.all (reported n) = true) := by
+  simp [holds, clauses, and_assoc]
+
+/-- For EVERY schedule — every list of blocks of instructions, worker steps, daemon actions and fault choices, with the
+    refined `Recover` / `RecoverAll` and daemon read failures — EVERY observation point of the model's trace satisfies the
+    first clause exactly as the driver evaluates it (`quiescent_match_or_error` of `Spec.clauses`). -/
+theorem model_trace_match_or_error (cfg : Cfg) (blocks : List (List EvR)) :
+    (observeR m0.s m0.ls :: obsTrace cfg m0 blocks).all
+      (fun o => !quiescent cfg.ncids o || (List.range cfg.ncids).all (matchOrError o)) = true := by
+  rw [clause_match_or_error_iff]
+  intro o ho hq c hc
+  have key : ∀ s ls, Inv s → o = observeR s ls → matchOrError o c = true := by
+    intro s ls hi e
+    subst e
+    rw [quiescent_R] at hq
+    exact matchOrError_R ls (matchOrError_of_quiescent hi hq c hc)
+  rcases List.mem_cons.1 ho with e | e
+  · exact key init true inv_init e
+  · obtain ⟨s, ls, hi, e⟩ := obsTrace_inv cfg blocks m0 inv_init o e
+    exact key s ls hi e
+
+/-- ... and the state behind every observation point satisfies the tracker invariant -/
+theorem model_trace_invariant (cfg : Cfg) (blocks : List (List EvR)) :
+    ∀ o ∈ obsTrace cfg m0 blocks, ∃ s ls, Inv s ∧ o = observeR s ls :=
+  obsTrace_inv cfg blocks m0 inv_init
+
+/-- a non-trivial schedule: an errored pin, a failed-listing round, a healthy round, each block ending at a stable point -/
+example :
+    (obsTrace k06Cfg m0 [[.base (.track (k06Pin .direct)), .stabilize], [.base (.retErr 0), .stabilize],
+      [.lsFail true], [.recoverAll [([], 0)], .stabilize], [.lsFail false], [.recoverAll [([.deqPin], 0)], .stabilize],
+      [.base (.effect 1), .base (.retOk 1), .stabilize]]).map (fun o => (o.status 0, quiescent 1 o)) =
+    [(.pinning, false), (.pinError, true), (.pinError, true), (.pinError, true), (.pinError, true), (.pinning, false),
+     (.pinned, true)] := by
+  decide
+
+/-! ### round 7: concurrent instructions (`EvC`, `stepC` of `Model/C05R.lean`)
+
+RPC handlers run in their own goroutines: `Recover` / `RecoverAll` (REST) run concurrently with the `Track` / `Untrack` the
+consensus component issues (those two are serialised among themselves since 2ba6875). The only lock is the operation
+table's: `TrackNewOperation`, `Clean`, `GetExists` are atomic, nothing else is. So an instruction is (status read →)
+`TrackNewOperation` → channel send, and the steps of different instructions interleave freely. -/
+
+/-- not interleaved, the two halves of `enqueue` are the atomic `enqueue` of the base model -/
+theorem enqueue_two_steps (cfg : Cfg) (s : State) (p : PinSpec) (typ : OpType) :
+    enqueue cfg s p typ =
+      match enqBegin s p typ with
+      | (s1, none) => (s1, .nil)
+      | (s1, some i) => enqSend cfg s1 i typ := by
+  unfold enqueue enqBegin enqSend
+  cases trackNew s p typ .queued with
+  | mk s1 r => cases r <;> cases typ <;> rfl
+
+/-- an operation replaced between its `TrackNewOperation` and its channel send is sent cancelled; the worker that receives
+    it drops it without touching the daemon or the table (`applyPinF`: `if op.Cancelled() { return true }`) -/
+theorem cancelled_send_is_skipped (cfg : Cfg) (s : State) (i : Nat) (rest : List Nat) (hq : s.pinQ = i :: rest)
+    (hc : (s.ops i).cancelled = true) (hfree : busyPin s < cfg.workers) : deqPin cfg s = { s with pinQ := rest } := by
+  unfold deqPin
+  rw [if_pos hfree, hq]
+  simp only [startCall]
+  rw [if_pos hc]
+
+/-- Track‖Untrack with the sends delayed and swapped (Track's operation is replaced before it is sent): harmless — the
+    stale pin operation is skipped, the unpin wins, the state is quiescent and matches the last instruction. -/
+theorem interleaved_track_untrack_harmless :
+    let t := runC k06Cfg initC [.trackBegin (k06Pin .recursive), .untrackBegin 0, .send 1, .send 0,
+      .base .deqPin, .base .deqUnpin, .base (.effect 1), .base (.retOk 1)]
+    t.sends = [] ∧ (t.s.ops 0).cancelled = true ∧ t.s.pinQ = [] ∧ quiescent 1 (observe t.s) = true ∧
+    t.s.daemon 0 = none ∧ matchOrError (observe t.s) 0 = true := by
+  decide
+
+/-- the full claim for the interleaved system -/
+def concurrent_full : Prop :=
+  ∀ (cfg : Cfg) (es : List EvC) (n c : Nat), c < n → (runC cfg initC es).sends = [] → (runC cfg initC es).reads = [] →
+    quiescent n (observe (runC cfg initC es).s) = true → matchOrError (observe (runC cfg initC es).s) c = true
+
+/-- It FAILS: `Recover(c)` reads pin_error, `Untrack(c)` runs to completion (the pinset drops c, the daemon unpins it), then
+    `recoverWithPinInfo` acts on the stale pin_error: the pinset has no entry, so it re-pins `api.PinCid(c)`. The end is
+    quiescent, c is not in the pinset, `Status` = unpinned, and the daemon pins c — for good (no later recover lists c). -/
+theorem concurrent_recover_untrack_breaks : ¬ concurrent_full := by
+  intro h
+  have := h k06Cfg [.trackBegin (k06Pin .direct), .send 0, .base .deqPin, .base (.retErr 0), .recRead 0,
+    .untrackBegin 0, .send 0, .base .deqUnpin, .base (.effect 1), .base (.retOk 1), .recSwitch 0, .send 0,
+    .base .deqPin, .base (.effect 2), .base (.retOk 2)] 1 0 (by decide) (by decide) (by decide) (by decide)
+  revert this
+  decide
+
+/-- the same through `RecoverAll`: its listing is a snapshot; an `Untrack` that completes between the listing and the entry
+    of that cid makes the loop re-pin a removed cid. (`recoverAllR_invariant` / `recoverAll_covers` assume only worker and
+    daemon activity in between: the hypothesis `internalOnly` is necessary.) -/
+theorem recoverAll_stale_listing_breaks :
+    let s0 := run k06Cfg init [.track (k06Pin .direct), .deqPin, .retErr 0]
+    let s1 := run k06Cfg (recoverAllR k06Cfg s0 true [([.untrack 0, .deqUnpin, .effect 1, .retOk 1], 0)]).1
+      [.deqPin, .effect 2, .retOk 2]
+    quiescent 1 (observe s1) = true ∧ s1.shared 0 = none ∧ statusOf s1 0 = .unpinned ∧
+    s1.daemon 0 = some (.recursive, 0) ∧ matchOrError (observe s1) 0 = false := by
+  decide
+
+/-- what holds without the atomicity assumption: executed atomically (each first half immediately followed by its second
+    half, each read by its switch) the interleaved system is the base model, for which all theorems above hold -/
+theorem atomic_track_is_base (cfg : Cfg) (t : StateC) (p : PinSpec) (hs : t.sends = []) :
+    (stepC cfg (stepC cfg t (.trackBegin p)) (.send 0)).s = step cfg t.s (.track p) := by
+  unfold step stepRet
+  by_cases hk : p.kind = .here
+  · simp only [stepC, hk, if_true, pushSend, track, enqueue, enqBegin]
+    cases hn : trackNew { t.s with shared := upd t.s.shared p.cid (some p), failed := upd t.s.failed p.cid false } p .pin .queued with
+    | mk s1 r =>
+      cases r with
+      | none => simp [hs]
+      | some i => simp [hs, enqSend]
+  · simp only [stepC, hk, if_false]
+    have : (stepC cfg { t with s := step cfg t.s (.track p) } (.send 0)) = { t with s := step cfg t.s (.track p) } := by
+      simp [stepC, hs]
+    simp only [stepC, hs] at this ⊢
+    simp [step, stepRet]
+
+/-! ### round 7: Shutdown, timeouts, priorities
+
+This version of the tracker has no pin / unpin timeout of its own (no `PinTimeout`, no `context.WithTimeout` in
+`stateless.go`: an IPFS call ends when the connector's own timeout or the operation's cancellation ends it — the `retErr` /
+`reap` steps) and a single `pinCh` (no priority channel). `Shutdown` cancels `spt.ctx`; every operation's context derives
+from it (`NewOperationTracker(ctx, …)`, `TrackNewOperation`: `trace.NewContext(opt.ctx, …)`), the workers return on
+`<-spt.ctx.Done()`, and `spt.wg` is never `Add`ed to, so `Shutdown` does not wait for them. -/
+
+/-- after `Shutdown` every operation is cancelled, every parked call has left with its context error, and no completion
+    of any call — daemon effect, nil answer, error answer — changes the state any more: no worker write after close;
+    operations still in the channels stay there (or are skipped: `cancelled_send_is_skipped`). -/
+theorem shutdown_cancels_all (cfg : Cfg) (s : State) (hr : Reachable cfg s) :
+    (shutdown s).calls = [] ∧
+    ∀ i, i < s.nextId → ((shutdown s).ops i).cancelled = true ∧ effect (shutdown s) i = shutdown s ∧
+      retOk (shutdown s) i = shutdown s ∧ retErr (shutdown s) i = shutdown s := by
+  have hops : ∀ i, i < s.nextId → ((shutdown s).ops i).cancelled = true := by
+    intro i hi
+    simp [shutdown, reapAll, cancelAll, hi]
+  refine ⟨?_, fun i hi => ⟨hops i hi, dead_call_inert _ i (hops i hi)⟩⟩
+  simp only [shutdown, reapAll]
+  rw [List.filter_eq_nil_iff]
+  intro k hk
+  have hlt := (inv_reachable hr).callLt k hk
+  simp only [alive, cancelAll]
+  rw [if_pos hlt]
+  simp
+
 /-! ### The anchored functions still read as the model was transcribed (regenerated from /repo on every run) -/
 
 theorem gen_source_Stateless_f_New : Gen.Stateless.f_New = Expected.Stateless.f_New := rfl
@@ -267,6 +604,7 @@ theorem gen_source_Stateless_f_Tracker_Shutdown : Gen.Stateless.f_Tracker_Shutdo
 theorem gen_source_Stateless_f_Tracker_Track : Gen.Stateless.f_Tracker_Track = Expected.Stateless.f_Tracker_Track := rfl
 theorem gen_source_Stateless_f_Tracker_Untrack : Gen.Stateless.f_Tracker_Untrack = Expected.Stateless.f_Tracker_Untrack := rfl
 theorem gen_source_Stateless_f_Tracker_StatusAll : Gen.Stateless.f_Tracker_StatusAll = Expected.Stateless.f_Tracker_StatusAll := rfl
+theorem gen_source_Stateless_f_Tracker_statusAll : Gen.Stateless.f_Tracker_statusAll = Expected.Stateless.f_Tracker_statusAll := rfl
 theorem gen_source_Stateless_f_Tracker_Status : Gen.Stateless.f_Tracker_Status = Expected.Stateless.f_Tracker_Status := rfl
 theorem gen_source_Stateless_f_Tracker_RecoverAll : Gen.Stateless.f_Tracker_RecoverAll = Expected.Stateless.f_Tracker_RecoverAll := rfl
 theorem gen_source_Stateless_f_Tracker_Recover : Gen.Stateless.f_Tracker_Recover = Expected.Stateless.f_Tracker_Recover := rfl
